@@ -386,7 +386,18 @@ func ruleC16SharedWrapper(c *Ctx) {
 			c.ok(shortName(ld)+"/wrapped", u.ipos(r), "every success path wraps (or finds) a sharedEncryption")
 		}
 	}
-	if goa := u.Method(pkgApp, "cacheWrapper", "getOrAdd"); goa != nil {
+	// whichever method of cacheWrapper performs the insert
+	var goa *ssa.Function
+	for _, g := range u.RepoFuncs {
+		if g.Signature.Recv() != nil && g.Parent() == nil && typeIsNamed(g.Signature.Recv().Type(), pkgApp, "cacheWrapper") {
+			allInstrs(g, func(i ssa.Instruction) {
+				if cc := callOf(i); cc != nil && cc.IsInvoke() && cc.Method.Name() == "Set" && typeIsNamed(cc.Value.Type(), pkgCache, "Interface") {
+					goa = g
+				}
+			})
+		}
+	}
+	if goa != nil {
 		ok := false
 		allInstrs(goa, func(i ssa.Instruction) {
 			cc := callOf(i)
@@ -400,6 +411,6 @@ func ruleC16SharedWrapper(c *Ctx) {
 				}
 			}
 		})
-		c.check(ok, shortName(goa)+"/caches-loaded", u.pos(goa.Pos()), "cache.Set(id, <loader result>)", "getOrAdd does not cache the session the loader returned")
+		c.check(ok, "cacheWrapper/caches-loaded", u.pos(goa.Pos()), "cache.Set(id, <loader result>)", "the session cache does not store the session the loader returned")
 	}
 }
